@@ -23,6 +23,25 @@ PAD = "ant_protocol::storage::scratchpad::Scratchpad"
 
 def run(R):
     F = R.F
+    # every client read of a record goes through one of the three authenticated readers (chunks and data maps: chunk_get)
+    R.who_may_call("C15.readers", ["ant_networking::Network::get_record_from_network"],
+                   [CG, GV, "autonomi::client::registers::<impl autonomi::client::Client>::register_get"], floor=3,
+                   ignore_crates=("ant_node", "ant_networking"),
+                   descr="client-side network reads happen only in chunk_get, get_vault_from_network and register_get")
+    # data_get_public(addr): the data map decrypted is the chunk fetched (and address-checked) for *that* addr
+    DGP = "autonomi::client::data::public::<impl autonomi::client::Client>::data_get_public"
+    dg = R.body("C15.data", DGP + "::{closure#0}")
+    if dg is not None:
+        prep(dg)
+        ta = Taint(dg, through="all")
+        addr = Taint(dg).closure(PL(dg, 1))
+        cgs = [b for b in dg.blocks if b["term"]["k"] == "call" and not b["cleanup"] and callee_matches(b["term"], [CG])]
+        fdm = [b for b in dg.blocks if b["term"]["k"] == "call" and not b["cleanup"] and callee_matches(b["term"], ["*::fetch_from_data_map_chunk"])]
+        fetched = ta.closure({b["term"]["d"][0] for b in cgs})
+        okd = bool(cgs) and bool(fdm) and all(op_local(b["term"]["args"][1]) in addr for b in cgs) and all(op_local(b["term"]["args"][1]) in fetched for b in fdm)
+        if not okd:
+            R.viol("C15.data", "data-map-source", "data_get_public does not decrypt through the chunk that chunk_get returned for the requested address", dg, dg.lines[0])
+        R.inst("C15.data", "K6 flows-to", "data_get_public(addr) = fetch_from_data_map_chunk(chunk_get(addr).value())", len(cgs) + len(fdm), okd)
     cg = R.body("C15.chunk", CG + "::{closure#0}")
     if cg is not None:
         prep(cg)
